@@ -375,7 +375,7 @@ fn server_misbehaves(restrict: u8) {
     let r = req.poll_read(&mut cx);
     match r {
         Poll::Ready(Some(Ok(item))) => {
-            kani::cover!(item.len() as u64 == size && size > 0);
+            kani::cover!(if restrict == 6 { item.len() as u64 > size } else { item.len() as u64 == size && size > 0 });
             std::mem::forget(item);
         }
         Poll::Ready(Some(Err(e))) => std::mem::forget(e),
